@@ -53,6 +53,7 @@ class Block:
         self.attrs = []
         self.ret = None
         self.trusted = None
+        self.as_spec = None   # //@as-spec <name>: the body of a pure exec fn is ALSO taken as the definition of a spec fn
         self.substs = []      # (rid, from, to)
         self.subst_opt = set()   # (rid, from) of the //@subst-opt entries
         self.r3 = []          # loop ordinals
@@ -188,6 +189,14 @@ def build_item(repo, blk, cache):
         add(a, 0, "(%s: " % blk.ret, "ghost-ret")
         add(b, 0, ")", "ghost-ret")
     loops = rustlex.loop_headers(item) if item.kind == "fn" else []
+    if blk.as_spec is not None:
+        # `fn name(` -> `pub open spec fn <specname>(` : the (pure, loop-free) body is reused verbatim as a spec definition, so a
+        # POLICY of the library (which it is free to change) is mirrored mechanically instead of being pinned by hand
+        if not parts: raise ToolError("//@as-spec on non-fn %s" % blk.path)
+        m = re.search(r"\bfn\s+%s\b" % re.escape(item.name), text)
+        if not m: raise ToolError("//@as-spec: cannot find the fn keyword of %s" % item.name)
+        add(T0, m.end(), "pub open spec fn %s" % blk.as_spec, "as-spec")
+        rewrites.append({"id": "as-spec", "from": item.name, "to": blk.as_spec})
     if blk.trusted is not None:
         if not parts: raise ToolError("//@trusted on non-fn %s" % blk.path)
         add(parts["body_open"], parts["body_close"] + 1 - parts["body_open"], "{ unimplemented!() }", "trusted-body")
@@ -313,6 +322,7 @@ def generate(repo, unit_tmpl):
                     elif d == "attr": blk.attrs.append(rest)
                     elif d == "ret": blk.ret = rest
                     elif d == "trusted": blk.trusted = rest or "unspecified"
+                    elif d == "as-spec": blk.as_spec = rest
                     elif d == "keep-inner-attrs": blk.strip_inner_attrs = False
                     elif d in ("subst", "subst-opt"):
                         rid, _, r2 = rest.partition(" ")
